@@ -1172,7 +1172,16 @@ class FixedClock(datetime.datetime):
         # (the patch of in_toto.verifylib.datetime.datetime is process-wide: dateutil's parser asks for now() without
         # a zone to fill in missing fields; it gets naive UTC, so that clocks in year 1 / 9999 do not overflow)
         t = datetime.datetime(1970, 1, 1, tzinfo=datetime.timezone.utc) + datetime.timedelta(microseconds=cls.NOW_US)
-        return t.replace(tzinfo=None) if tz is None else t.astimezone(tz)
+        if tz is not None:
+            return t.astimezone(tz)
+        # like the real now(): the LOCAL wall-clock reading, naive (the process zone is varied by run_impl, so code that
+        # mistakes local time for UTC is exposed); clocks near year 1 / 9999 stay in UTC to avoid overflow
+        import time as _time
+        try:
+            off = _time.localtime(max(0, min(cls.NOW_US // 1000000, 4102444800))).tm_gmtoff
+            return (t + datetime.timedelta(seconds=off)).replace(tzinfo=None)
+        except (OverflowError, ValueError, OSError):
+            return t.replace(tzinfo=None)
 
 
 def _snapshot(md):
@@ -1185,6 +1194,9 @@ def _snapshot(md):
     return {"payload": base64.b64encode(md.payload).decode(), "payload_type": md.payload_type,
             "signatures": json.loads(json.dumps([s.to_dict() for s in md.signatures.values()] if isinstance(md.signatures, dict)
                                                 else [s.to_dict() for s in md.signatures]))}
+
+
+SCRIPTED_DURATION = 7.0
 
 
 def run_impl(scen, workdir, times=1, params_seq=None, scrub=False):
@@ -1226,10 +1238,17 @@ def run_impl(scen, workdir, times=1, params_seq=None, scrub=False):
     def fake_run(name, material_list, product_list, link_cmd_args, **kw):
         if link_cmd_args and any(isinstance(a, str) and "TIMEOUT" in a for a in link_cmd_args):
             real_cmd = [a.replace("TIMEOUT", "true") if isinstance(a, str) else a for a in link_cmd_args]
+            # a scripted command that runs for SCRIPTED_DURATION seconds: it exceeds the limit the caller of
+            # in_toto_verify set (inspect_timeout=5, below) but not in-toto's default of 10 s — so the limit must reach
+            # the inspections of every nested layout.  The scripted truth (the model's exec oracle) is "timed out".
+            link = None
             try:
-                real_run(name, material_list, product_list, real_cmd, **kw)
+                link = real_run(name, material_list, product_list, real_cmd, **kw)
             finally:
                 record([link_cmd_args, "timeout"])
+            limit = kw.get("timeout", in_toto.settings.LINK_CMD_EXEC_TIMEOUT)
+            if limit is None or float(limit) >= SCRIPTED_DURATION:
+                return link            # the limit in force did not stop it: the implementation carries on
             raise subprocess.TimeoutExpired(link_cmd_args, kw.get("timeout"))
         try:
             link = real_run(name, material_list, product_list, link_cmd_args, **kw)
@@ -1247,6 +1266,13 @@ def run_impl(scen, workdir, times=1, params_seq=None, scrub=False):
     vl.datetime.datetime = FixedClock
     in_toto.runlib.in_toto_run = fake_run
     os.chdir(cwd)
+    # the verifier's process time zone must not matter (expiry is compared in UTC): vary it, derived from the scenario
+    import time as _time
+    old_tz = os.environ.get("TZ")
+    zone = [None, "EST5", None, "UTC-12", None, "PST8PDT"][len(json.dumps(scen["root"], sort_keys=True, default=str)) % 6]
+    if zone:
+        os.environ["TZ"] = zone
+        _time.tzset()
     try:
         try:
             md = Metadata.load(rootpath)
@@ -1265,7 +1291,9 @@ def run_impl(scen, workdir, times=1, params_seq=None, scrub=False):
                         os.remove(os.path.join(cwd, fn))
             try:
                 summary = vl.in_toto_verify(md, copy.deepcopy(scen["keys"]), link_dir_path=linkdir,
-                                            substitution_parameters=copy.deepcopy(params), inspect_timeout=5)
+                                            substitution_parameters=copy.deepcopy(params), inspect_timeout=5,
+                                            # the API-only option must not change what is checked (derived from the scenario, not from rng)
+                                            persist_inspection_links=(len(json.dumps(scen["root"], sort_keys=True, default=str)) % 3 != 0))
                 import attr
                 out = {"ok": attr.asdict(summary)}
             except Exception as e:  # noqa
@@ -1285,6 +1313,12 @@ def run_impl(scen, workdir, times=1, params_seq=None, scrub=False):
         os.chdir(old_cwd)
         vl.datetime.datetime = old_dt
         in_toto.runlib.in_toto_run = real_run
+        if zone:
+            if old_tz is None:
+                os.environ.pop("TZ", None)
+            else:
+                os.environ["TZ"] = old_tz
+            _time.tzset()
     return outcomes, exec_table
 
 
